@@ -172,7 +172,7 @@ def guard_rules(ck, prog):
         ck.ob("G", f"perform_verification:unwrap-of:{(callee_name(prods[0]) or '?').split('::')[-1] if prods else '?'}", not bad,
               "expect/unwrap in perform_verification is not applied to an optional proof component (its absence must be an error, not a panic)",
               loc=pv.loc(b, T), detail=f"receiver produced by {bad}" if bad else None)
-    ck.floor("expect/unwrap sites examined in perform_verification", n_sites, 2)
+    ck.floor("expect/unwrap sites examined in perform_verification", n_sites, 1)
     reads = [t for b, t in pv.calls() if (callee_name(t) or "").endswith("VerifierChannel::read_gkr_proof")]
     if len(reads) != 1:
         from ..ir import AnchorError
